@@ -4,7 +4,7 @@ From Coq Require Import String.
 From Coq Require Import List Ascii ZArith Bool Lia Sorting.Sorted Sorting.Permutation.
 From CGV Require Hydro.Squash Compose.GraphAdj Compose.RelabelEdges.
 From CGV Require Import Base.PyBase Base.PyVal Base.NxGraph Resolve.Bonding Resolve.GraphOps Resolve.Pipeline
-     Resolve.MapDefs Resolve.Witness Resolve.SortProofs Resolve.VirtualProofs Resolve.SortGraphProofs Resolve.DriversInst Resolve.NameProofs Resolve.NameStep Resolve.PipelineFull.
+     Resolve.MapDefs Resolve.Witness Resolve.SortProofs Resolve.VirtualProofs Resolve.SortGraphProofs Resolve.DriversInst Resolve.NameProofs Resolve.NameStep Resolve.NameClosed Resolve.PipelineFull.
 From CGV Require Import Hydro.SquashDefs.
 From CGV Require Hydro.SquashProofs.
 Import ListNotations.
@@ -170,6 +170,32 @@ Example C12_step_names_unique_any_nonvacuous :
   NoDup (node_keys base_AA) /\
   names_AA = Ok (let l := map (fun s => Some (VStr s)) [S "C0"; S "C1"; S "H2"; S "H3"; S "H4"; S "H5"; S "H6"] in [(0, l); (1, l)], true).
 Proof. split; [vm_compute; repeat constructor; cbn; intuition discriminate|vm_compute; reflexivity]. Qed.
+(** the CLOSED FORM when no atom belongs to several fragments ([unshared]: every fragid list has at most one entry, i.e. no squash
+    operator joined two fragments): the atoms of a coarse node are named element ++ str(position), positions counted in the order
+    of the coarse node's graph ([labels 0 es] = e0 ++ "0", e1 ++ "1", ...; [elem mol n e]: the element of n is e) *)
+Theorem C12_names_closed_form : forall mol meta fgs mol' fgs', set_atom_names mol meta fgs = Ok (mol', fgs') ->
+  NoDup (concat (map snd (fraglist_of meta fgs))) -> (forall n, unshared mol n) ->
+  forall g, In g (fraglist_of meta fgs) -> exists es, Forall2 (elem mol) (snd g) es /\ map (name_in mol') (snd g) = map Some (labels 0 es).
+Proof. exact names_closed_form. Qed.
+Theorem C12_step_names_closed_form : forall legacy fd prev car fo,
+  resolve_step_full legacy true fd prev car = Ok fo -> NoDup (node_keys prev) -> (forall n, unshared (fo_m6 fo) n) ->
+  forall k g, In (k, g) (fo_fgs fo) ->
+  exists es, Forall2 (elem (fo_m6 fo)) (node_keys g) es /\ map (name_in (fo_mol fo)) (node_keys g) = map Some (labels 0 es).
+Proof. exact step_names_closed_form. Qed.
+Theorem C12_step_name_at : forall legacy fd prev car fo,
+  resolve_step_full legacy true fd prev car = Ok fo -> NoDup (node_keys prev) -> (forall n, unshared (fo_m6 fo) n) ->
+  forall k g i n, In (k, g) (fo_fgs fo) -> nth_error (node_keys g) i = Some n ->
+  exists e, elem (fo_m6 fo) n e /\ name_in (fo_mol fo) n = Some (VStr (atom_label e (Z.of_nat i))).
+Proof. exact step_name_at. Qed.
+(** non-vacuity: in the all-atom witness step (C12_step_names_unique_any_nonvacuous: names C0 C1 H2..H6 per coarse node) every
+    atom of the sorted fine graph has a one-entry fragid *)
+Example C12_step_names_closed_form_nonvacuous :
+  match m3_AA with
+  | Some m3 => match resolve_step_full true true fd_CC base_AA (Some m3) with
+               | Ok fo => forallb (fun n => match fragid_shared (na n) with Ok false => true | _ => false end) (fo_m6 fo)
+               | Err _ => false end
+  | None => false end = true.
+Proof. vm_compute. reflexivity. Qed.
 (** element ++ str(index) determines element and index when the element has no digit *)
 Theorem C12_label_injective : forall e e' i j, digit_free e -> digit_free e' -> 0 <= i -> 0 <= j ->
   atom_label e i = atom_label e' j -> e = e' /\ i = j.
@@ -274,6 +300,9 @@ Print Assumptions C12_annotate_groups_any.
 Print Assumptions C12_sorted_keys_distinct.
 Print Assumptions C12_sort_edge_get.
 Print Assumptions C12_step_names_unique_any.
+Print Assumptions C12_names_closed_form.
+Print Assumptions C12_step_names_closed_form.
+Print Assumptions C12_step_name_at.
 Print Assumptions C12_sort_keys.
 Print Assumptions C12_sort_sorted.
 Print Assumptions C12_block_contiguous.
